@@ -36,6 +36,29 @@ theorem store_inv2 {s : Shard} (e : Ev) (h : Inv2 s) : Inv2 (store s e) := by
 theorem rotate_inv2 {s : Shard} (h : Inv2 s) : Inv2 (rotate s) :=
   inv2_of_frame (s := s) (by simp [rotate]) (by simp [rotate]) (by simp [rotate]) h
 
+theorem recoverIndex_dirs (segs : List (Nat × List Ev)) :
+    ∀ ent ∈ recoverIndex segs, ∃ p ∈ segs, p.1 = ent.1 := by
+  intro ent he
+  simp only [recoverIndex, List.mem_filterMap] at he
+  obtain ⟨id, hid, hsome⟩ := he
+  rw [mem_sortNat, List.mem_eraseDups, List.mem_map] at hid
+  obtain ⟨p, hp, rfl⟩ := hid
+  split at hsome
+  · simp only [Option.some.injEq] at hsome
+    exact ⟨p, hp, by rw [← hsome]⟩
+  · simp at hsome
+
+theorem loadIndex_dirs {s : Shard} (h2 : Inv2 s) : ∀ ent ∈ (loadIndex s).index, HasDir s ent.1 := by
+  intro ent he
+  unfold loadIndex at he
+  by_cases hx : s.indexExists = true
+  · simp only [hx, if_true] at he; exact h2.indexDirs ent he
+  · simp only [hx, if_false, Bool.false_eq_true] at he
+    by_cases hr : (recoverIndex s.segs).isEmpty = true
+    · simp only [hr, if_true] at he; exact h2.indexDirs ent he
+    · simp only [hr, if_false, Bool.false_eq_true] at he
+      exact recoverIndex_dirs s.segs ent he
+
 theorem hasDir_append {s : Shard} {id : Nat} (p : Nat × List Ev) (h : HasDir s id) :
     ∃ q ∈ s.segs ++ [p], q.1 = id := by
   obtain ⟨q, hq, hid⟩ := h; exact ⟨q, by simp [hq], hid⟩
@@ -69,7 +92,7 @@ theorem flushStep_inv2 {s : Shard} (h : Inv s) (h2 : Inv2 s) : Inv2 (flushStep s
         intro ent he
         simp only [List.mem_append, List.mem_singleton] at he
         rcases he with he | rfl
-        · exact h2.indexDirs ent he
+        · exact loadIndex_dirs h2 ent (List.mem_filter.mp he).1
         · exact hdir (by omega)
       | 2 =>
         simp only
